@@ -104,6 +104,7 @@ package util
 //@   assigns m[all], m[pkgPath][all]
 //@   ensures tmWF(m)
 //@   ensures forall p string, t string :: tmHas(m, p, t) <==> (old(tmHas(m, p, t)) || (p == pkgPath && t == typeName))
+//@   ensures forall p string :: indom(m, p) ==> ((old(indom(m, p)) && m[p] == old(m[p])) || fresh(m[p]))
 
 //@ func TypesMap.Contains
 //@   props C01 C03 C09 C10
@@ -135,6 +136,8 @@ package util
 //@   ensures forall x string :: contains(tarList(tar, pkgPath, typeName), x) <==> (contains(old(tarList(tar, pkgPath, typeName)), x) || x == associatedName)
 //@   ensures len(tarList(tar, pkgPath, typeName)) == old(len(tarList(tar, pkgPath, typeName))) + 1
 //@   ensures forall p string, t string :: !(p == pkgPath && t == typeName) ==> tarList(tar, p, t) == old(tarList(tar, p, t))
+//@   ensures forall p string, t string, x string :: !(p == pkgPath && t == typeName) ==> (contains(tarList(tar, p, t), x) <==> contains(old(tarList(tar, p, t)), x))
+//@   ensures forall p string :: indom(tar, p) ==> ((old(indom(tar, p)) && tar[p] == old(tar[p])) || fresh(tar[p]))
 
 //@ func TypeAssociationRegistry.Match
 //@   props C01 C02 C03 C09 C10
@@ -354,6 +357,7 @@ package util
 //@   props C04 C10
 //@   requires amWF(t)
 //@   assigns t.packageAttachments, t.packageAttachments[all], amTA(t, pkg)[all]
+//@   ensures t.packageAttachments != nil && (old(t.packageAttachments) != nil ? t.packageAttachments == old(t.packageAttachments) : fresh(t.packageAttachments))
 //@   ensures forall p string :: (amTA(t, p) == old(amTA(t, p)) || (p == pkg && fresh(amTA(t, p)))) && amFA(t, p) == old(amFA(t, p))
 //@   ensures forall p string, u string :: amMA(t, p, u) == old(amMA(t, p, u)) && amFL(t, p, u) == old(amFL(t, p, u))
 //@   ensures amAlloc(t)
@@ -365,11 +369,15 @@ package util
 //@   ensures forall p string, u string :: !(p == pkg && u == typename) ==> amTypeAtt(t, p, u) == old(amTypeAtt(t, p, u))
 //@   ensures forall p string, f string :: amFuncAtt(t, p, f) == old(amFuncAtt(t, p, f))
 //@   ensures forall p string, u string, m string :: amMethAtt(t, p, u, m) == old(amMethAtt(t, p, u, m))
+//@   ensures forall p string, u string, x string :: !(p == pkg && u == typename) ==> (contains(amTypeAtt(t, p, u), x) <==> contains(old(amTypeAtt(t, p, u)), x))
+//@   ensures forall p string, f string, x string :: contains(amFuncAtt(t, p, f), x) <==> contains(old(amFuncAtt(t, p, f)), x)
+//@   ensures forall p string, u string, m string, x string :: contains(amMethAtt(t, p, u, m), x) <==> contains(old(amMethAtt(t, p, u, m)), x)
 
 //@ func AttachmentsMap.AddPkgFunctionAttachment
 //@   props C04 C10
 //@   requires amWF(t)
 //@   assigns t.packageAttachments, t.packageAttachments[all], amFA(t, pkg)[all]
+//@   ensures t.packageAttachments != nil && (old(t.packageAttachments) != nil ? t.packageAttachments == old(t.packageAttachments) : fresh(t.packageAttachments))
 //@   ensures forall p string :: amTA(t, p) == old(amTA(t, p)) && (amFA(t, p) == old(amFA(t, p)) || (p == pkg && fresh(amFA(t, p))))
 //@   ensures forall p string, u string :: amMA(t, p, u) == old(amMA(t, p, u)) && amFL(t, p, u) == old(amFL(t, p, u))
 //@   ensures amAlloc(t)
@@ -381,11 +389,15 @@ package util
 //@   ensures forall p string, f string :: !(p == pkg && f == funcname) ==> amFuncAtt(t, p, f) == old(amFuncAtt(t, p, f))
 //@   ensures forall p string, u string :: amTypeAtt(t, p, u) == old(amTypeAtt(t, p, u))
 //@   ensures forall p string, u string, m string :: amMethAtt(t, p, u, m) == old(amMethAtt(t, p, u, m))
+//@   ensures forall p string, f string, x string :: !(p == pkg && f == funcname) ==> (contains(amFuncAtt(t, p, f), x) <==> contains(old(amFuncAtt(t, p, f)), x))
+//@   ensures forall p string, u string, x string :: contains(amTypeAtt(t, p, u), x) <==> contains(old(amTypeAtt(t, p, u)), x)
+//@   ensures forall p string, u string, m string, x string :: contains(amMethAtt(t, p, u, m), x) <==> contains(old(amMethAtt(t, p, u, m)), x)
 
 //@ func AttachmentsMap.AddPkgTypeMethodAttachment
 //@   props C04 C10
 //@   requires amWF(t)
 //@   assigns t.packageAttachments, t.packageAttachments[all], amTA(t, pkg)[all], amMA(t, pkg, typename)[all]
+//@   ensures t.packageAttachments != nil && (old(t.packageAttachments) != nil ? t.packageAttachments == old(t.packageAttachments) : fresh(t.packageAttachments))
 //@   ensures forall p string :: (amTA(t, p) == old(amTA(t, p)) || (p == pkg && fresh(amTA(t, p)))) && amFA(t, p) == old(amFA(t, p))
 //@   ensures forall p string, u string :: (amMA(t, p, u) == old(amMA(t, p, u)) || (p == pkg && u == typename && fresh(amMA(t, p, u)))) && amFL(t, p, u) == old(amFL(t, p, u))
 //@   ensures amAlloc(t)
@@ -397,3 +409,6 @@ package util
 //@   ensures forall p string, u string, m string :: !(p == pkg && u == typename && m == method) ==> amMethAtt(t, p, u, m) == old(amMethAtt(t, p, u, m))
 //@   ensures forall p string, u string :: amTypeAtt(t, p, u) == old(amTypeAtt(t, p, u))
 //@   ensures forall p string, f string :: amFuncAtt(t, p, f) == old(amFuncAtt(t, p, f))
+//@   ensures forall p string, u string, m string, x string :: !(p == pkg && u == typename && m == method) ==> (contains(amMethAtt(t, p, u, m), x) <==> contains(old(amMethAtt(t, p, u, m)), x))
+//@   ensures forall p string, u string, x string :: contains(amTypeAtt(t, p, u), x) <==> contains(old(amTypeAtt(t, p, u)), x)
+//@   ensures forall p string, f string, x string :: contains(amFuncAtt(t, p, f), x) <==> contains(old(amFuncAtt(t, p, f)), x)
